@@ -155,6 +155,8 @@ DBPROF = {"phreeqc": {"file": PHREEQC_DAT, "ss": ("Calcite", "Strontianite"), "n
 STATE_KINDS = ["solution", "equilibrium_phases", "exchange", "surface", "gas_phase", "solid_solutions", "kinetics"]
 SAVABLE = ["equilibrium_phases", "exchange", "surface", "gas_phase", "solid_solutions"]
 REACTANTS = {"NaCl": "NaCl", "CaCl2": "CaCl2", "HCl": "HCl", "NaOH": "NaOH", "CO2": "CO2", "CaCO3": "CaCO3", "SrCl2": "SrCl2", "Na2SO4": "Na2SO4", "H2O": "H2O", "MgCl2": "MgCl2", "O2": "O2", "CH2O": "CH2O"}
+SURF2 = ("SURFACE_MASTER_SPECIES\n Su_ Su_OH\nSURFACE_SPECIES\n Su_OH = Su_OH\n log_k 0\n Su_OH + H+ = Su_OH2+\n log_k 6.5\n Su_OH = Su_O- + H+\n log_k -8.5\n"
+         " Su_OH + Ca+2 = Su_OCa+ + H+\n log_k -5.0\nEND\n")
 RATES = "RATES\n lin\n -start\n10 SAVE parm(1) * TIME\n -end\n first\n -start\n10 SAVE parm(1) * M * TIME\n -end\nEND\n"
 
 
@@ -166,7 +168,7 @@ def gen_cell(rng, n):
     if rng.chance(30):
         d["kinds"]["exchange"] = rng.choice([0.001, 0.02])
     if rng.chance(30):
-        d["kinds"]["surface"] = rng.choice(["plain", "plain", "diffuse", "donnan", "no_edl"])
+        d["kinds"]["surface"] = rng.choice(["plain", "plain", "diffuse", "donnan", "no_edl", "donnan2", "donnan2"])
     if rng.chance(25):
         d["kinds"]["gas_phase"] = {"type": rng.choice(["fixed_pressure", "fixed_volume"]), "co2": rng.choice([0, 0.001, 0.05]), "n2": rng.choice([0, 0.5, 0.5]), "o2": rng.choice([0, 0, 0.05])}
     if rng.chance(20):
@@ -208,8 +210,9 @@ def cell_text(c, db="phreeqc"):
         t += "EXCHANGE %d\n X %s\n -equilibrate %d\n" % (n, k["exchange"], n)
     if "surface" in k:
         # the explicit diffuse-layer integration does not converge with the Pitzer model ("Did not converge on g"): Donnan there
-        opt = {"plain": "", "diffuse": " -diffuse_layer 1e-8\n" if db != "pitzer" else " -donnan 1e-8\n", "donnan": " -donnan 1e-8\n", "no_edl": " -no_edl\n"}[k["surface"]]
-        t += "SURFACE %d\n%s Hfo_w 1e-3 600 1\n Hfo_s 5e-5\n -equilibrate %d\n" % (n, opt, n)
+        opt = {"plain": "", "diffuse": " -diffuse_layer 1e-8\n" if db != "pitzer" else " -donnan 1e-8\n", "donnan": " -donnan 1e-8\n", "donnan2": " -donnan 1e-8\n", "no_edl": " -no_edl\n"}[k["surface"]]
+        # donnan2: two binding-site families = two charge planes, each with its own diffuse layer (Su_ is defined in SURF2)
+        t += "SURFACE %d\n%s Hfo_w 1e-3 600 1\n Hfo_s 5e-5\n%s -equilibrate %d\n" % (n, opt, " Su_ 4e-4 300 0.6\n" if k["surface"] == "donnan2" else "", n)
     if "gas_phase" in k:
         g = k["gas_phase"]
         t += "GAS_PHASE %d\n -%s\n -pressure 1\n -volume 1\n CO2(g) %s\n" % (n, g["type"], g["co2"])
@@ -336,7 +339,7 @@ def check_plan(ctx, plan):
     f = plan["fault"]
     db = plan.get("db", "phreeqc")
     rep.count("db:" + db)
-    head = [["create", "1", "sim"], call("cpp", "s1", "SetDumpStringOn", 1), call("cpp", "s1", "LoadDatabase", DBPROF[db]["file"]), call("cpp", "s1", "RunString", RATES)]
+    head = [["create", "1", "sim"], call("cpp", "s1", "SetDumpStringOn", 1), call("cpp", "s1", "LoadDatabase", DBPROF[db]["file"]), call("cpp", "s1", "RunString", RATES), call("cpp", "s1", "RunString", SURF2)]
     if f and f["kind"] == "itmax":
         head.append(call("cpp", "s1", "RunString", "KNOBS\n -iterations %d\nEND\n" % f["iterations"]))
     if f and f["kind"] == "knobs":
@@ -509,8 +512,8 @@ def check_plan(ctx, plan):
                 rep.count("elements_checked")
             if abs(x - y) > 1e-6 * scale:
                 kind = "charge" if el == "charge" else "element"
-                if abs(x - y) < 1e-9 and scale < (1e-4 if el == "charge" else 1e-5):
-                    kind += "_trace"      # below ~1e-5 mol the solver's accuracy is absolute (~1e-10 mol), not relative: listed as a known finding
+                if (abs(x - y) < 1e-9 and scale < (1e-4 if el == "charge" else 1e-5)) or abs(x - y) < 5e-10:
+                    kind += "_trace"      # the solver's accuracy has an absolute floor (~1e-10 mol), not only a relative one: listed as a known finding (KF21)
                 rep.viol("ledger", "C02:not_conserved:" + kind + ("|rung11" if rung11 and not kind.endswith("_trace") else ""), "%s: %s before + added = %r, after = %r (difference %.3e, relative %.2e); system %r" % (what, el, x, y, y - x, abs(x - y) / scale, [key for _, key in src]))
                 break
         if rep.violations:
